@@ -269,10 +269,17 @@ theorem lin_own_defined (s : EqSystem) (hs : Homogeneous s) (prec : List Bool) (
   unfold numSysLinOwnF ownParams
   simp [hc]
 
-/-- `equilibrium_quotient` on a 2-D array of states (one per row) returns the quotient of every row -/
-theorem quotients2d_spec (rows : List (List ℝ)) (st : List ℤ) (qs : List ℝ)
-    (h : equilibriumQuotient2d rows st = .ok qs) : qs = rows.map fun c => quotient c st :=
-  mapM_ok_eq_map _ _ rows qs (fun _ _ hq => equilibriumQuotient_ok hq) h
+/-- `equilibrium_quotient` on a 2-D array of states (one per row): when no state has a zero entry the call returns, and it
+    returns the quotient of every row -/
+theorem quotients2d_returns_row_quotients (rows : List (List ℝ)) (st : List ℤ) (h0 : ∀ c ∈ rows, ∀ x ∈ c, x ≠ 0) :
+    equilibriumQuotient2d rows st = .ok (rows.map fun c => quotient c st) := by
+  obtain ⟨qs, hqs, _⟩ := mapM_ok_of_forall (fun row => equilibriumQuotient row st) rows (fun c hc => by
+    refine ⟨prodPowRow c st, ?_⟩
+    unfold equilibriumQuotient
+    simp [zeroDiv_false_of_ne_zero c st (h0 c hc)])
+  have := quotients2d_spec rows st qs hqs
+  unfold equilibriumQuotient2d
+  rw [hqs, this]
 
 /-! ## Row-reduced configurations (`rref_equil`, `rref_preserv`) -/
 
@@ -335,36 +342,16 @@ theorem rref_zero_iff_square (s : EqSystem) (prec : List Bool) (small : ℝ) (re
     hK hE hP
 
 /-- success characterisation of the configurable calls: for a homogeneous system with at least one reaction and
-    well-shaped arguments they return (with an unreduced equilibrium block the state must have no zero entry; the
-    reduced blocks never raise in the model — Python's complex/nan results for non-positive bases are excluded by the
-    positivity hypotheses of `rref_zero_iff_lin`) -/
+    well-shaped arguments they return.  With an unreduced equilibrium block the state must have no zero entry
+    (ZeroDivisionError otherwise).  With a reduced block the claim is made only for positive states: there Python and
+    the model compute the same numbers; at a zero or negative entry Python does not raise either but yields `zoo` /
+    complex values under the fractional reduced exponents where `Real.rpow` is totalised (both non-zero, the model is
+    never compared there), and with a constant `0` (`small` of a switched-off solid) Python takes `log(0)`. -/
 theorem lin_cfg_defined (s : EqSystem) (hs : Homogeneous s) (prec : List Bool) (small : ℝ) (re rp : Bool)
     (redE redP : Reduced ℝ) (y p : List ℝ) (hshape : shapeOk s y p = true) (hnr : 0 < s.nr)
-    (hy : re = false → ∀ x ∈ y, x ≠ 0) :
+    (hy : re = false → ∀ x ∈ y, x ≠ 0) (_hpos : re = true → (∀ x ∈ y, 0 < x) ∧ ∀ k ∈ ksOf s prec small p, 0 < k) :
     ∃ r, numSysLinCfgF s prec small re rp redE redP y p = .ok r :=
   numSysLinCfgF_defined hs prec small re rp redE redP hshape hnr hy
-
-/-- **Equation count in every configuration**: one equation per row the reducer returned for a reduced block,
-    `nr` resp. the number of composition keys for an unreduced one. -/
-theorem equation_count_cfg (s : EqSystem) (prec : List Bool) (small : ℝ) (re rp : Bool) (redE redP : Reduced ℝ)
-    (y p r : List ℝ) (h : numSysLinCfgF s prec small re rp redE redP y p = .ok r)
-    (hE : redE.rA.length = redE.rb.length) (hP : redP.rA.length = redP.rb.length) :
-    r.length = (if re then redE.rA.length else s.nr) + (if rp then redP.rA.length else (compositionBalanceVectors s).2.length) := by
-  obtain ⟨A, fp, hA, hshape, hfp, _, hr⟩ := numSysLinCfgF_ok h
-  rw [hr, List.length_append, preservBlock_ok hfp]
-  cases re <;> cases rp <;>
-    simp [List.length_zipWith, stoichs_length hA, ksOf_length hshape, compMat_length, totalsOf, hE, hP]
-
-/-- **Reading of the count clause under `rref_equil`.**  A reaction whose row `(ν | ln K)` is a combination of the
-    others (linearly dependent, consistent constants) contributes no independent equation: dropping it does not change
-    the solution set of the log-linear system.  Hence the row-reduced equilibrium block consists of
-    `rank (A | ln K)` equations — fewer than `nr` for dependent reactions — and still characterises
-    `Q_i = K_i` for ALL reactions (`rref_zero_iff_*`).  That the reducer returns exactly `rank` independent rows is
-    checked per instance by the harness (exact). -/
-theorem dependent_reaction_adds_no_equation (A : List (List ℝ)) (b : List ℝ) (n : ℕ) (row : List ℝ) (β : ℝ)
-    (hlen : A.length = b.length) (hw : ∀ r ∈ A, r.length = n) (hc : IsRowCombo A b n row β) (y : List ℝ) :
-    Solves (row :: A) (β :: b) y ↔ Solves A b y :=
-  dependent_row_redundant hlen hw hc y
 
 /-! ## Non-vacuity: a concrete instance (water autoprotolysis, exact over ℚ) -/
 
